@@ -125,9 +125,9 @@ func c14Enumerate(tier string, seed int64, emit func(string, any)) {
 	}
 	set3 := c14Reduced
 	if thorough {
-		set3 = all[:27] // the original term table; the terms added later take part in the 1- and 2-term strata and, through c14Reduced, in this one
+		set3 = all[:21] // most of the original term table (the nested2 / variable / computed terms come back through c14Reduced); the terms added later take part in the 1- and 2-term strata and, through c14Reduced, in this one
 		for _, i := range c14Reduced {
-			if i >= 27 {
+			if i >= 21 {
 				set3 = append(set3, i)
 			}
 		}
